@@ -283,6 +283,10 @@ pub struct HGoal<K: Kit> {
     /// Script mode only: unwind with `ScriptExhausted` when the script runs out instead of cycling
     /// through the samples (deadline-landing runs need every call to end)
     pub strict_script: Cell<bool>,
+    /// `distance_goal` is 0 on the region AND on a margin of this width around it: the trait promises
+    /// "inside the region => distance 0", not the converse (a goal whose predicate also looks at a
+    /// heading while its distance is positional). Satisfaction is decided by the predicate alone.
+    pub distance_margin: Cell<f64>,
 }
 
 impl<K: Kit> HGoal<K> {
@@ -302,6 +306,7 @@ impl<K: Kit> HGoal<K> {
             sample_log: RefCell::new(Vec::new()),
             pred_log: RefCell::new(Vec::new()),
             strict_script: Cell::new(false),
+            distance_margin: Cell::new(0.4),
         }
     }
     /// Pure predicate (no logging, no counters).
@@ -325,7 +330,7 @@ impl<K: Kit> GoalRegion<K::S> for HGoal<K> {
     fn distance_goal(&self, s: &K::S) -> f64 {
         self.balls
             .iter()
-            .map(|(c, r)| ((self.dist)(c, s) - r).max(0.0))
+            .map(|(c, r)| ((self.dist)(c, s) - r - self.distance_margin.get()).max(0.0))
             .fold(f64::INFINITY, f64::min)
     }
 }
